@@ -28,10 +28,10 @@ assert dirty, "worktree has no source change"
 patch_file = os.path.join(seed, "patch.diff")
 cur = git("diff", "--", "src").stdout
 assert cur.strip(), "no source change"
-open("/tmp/seedcheck_cur.diff", "w").write(cur)
-assert git("apply", "-R", "/tmp/seedcheck_cur.diff").returncode == 0
+open(f"/tmp/seedcheck_cur_{ID}.diff", "w").write(cur)
+assert git("apply", "-R", f"/tmp/seedcheck_cur_{ID}.diff").returncode == 0
 rc_clean, out_clean = run_demo()
-assert git("apply", "/tmp/seedcheck_cur.diff").returncode == 0
+assert git("apply", f"/tmp/seedcheck_cur_{ID}.diff").returncode == 0
 rc_mut, out_mut = run_demo()
 res["demo_without_change"] = rc_clean; res["demo_with_change"] = rc_mut
 res["demo_ok"] = rc_clean == 0 and rc_mut != 0
